@@ -210,7 +210,11 @@ where
             return Ok(CoroutineState::Error(e));
         }
         Self::init_current(self);
-        self.running()?;
+        if let Err(e) = self.running() {
+            // the coroutine is not run, it must not stay the current one
+            Self::clean_current();
+            return Err(e);
+        }
         #[cfg(unix)]
         Self::setup_sigvtalrm_handler();
         let r = self.raw_resume(arg);
